@@ -1191,7 +1191,31 @@ class Interp:
             return hook(f, args, kw)
         return None
 
+    MEMO_DECORATORS = ('lru_cache', 'cache')
+
+    def memo_decorated(self, f):
+        for d in getattr(f.node, 'decorator_list', []):
+            d = d.func if isinstance(d, ast.Call) else d
+            name = d.id if isinstance(d, ast.Name) else d.attr if isinstance(d, ast.Attribute) else None
+            if name in self.MEMO_DECORATORS:
+                return True
+        return False
+
     def invoke(self, f, args, kw):
+        if self.memo_decorated(f):
+            # functools.lru_cache / cache: the result of an earlier call with *equal* arguments is returned again - equality being the
+            # arguments' own __eq__ (objects without one: identity), exactly as the cache's dictionary lookup decides it
+            table = self.__dict__.setdefault('_memo_tables', {}).setdefault(f.qual, [])
+            for a0, k0, r0 in table:
+                if len(a0) == len(args) and sorted(k0) == sorted(kw) and \
+                        all(self.truth(self.cmp(ast.Eq(), x, y, f.node), f.node) for x, y in list(zip(a0, args)) + [(k0[k], kw[k]) for k in kw]):
+                    return r0
+            r = self.invoke_body(f, args, kw)
+            table.append((list(args), dict(kw), r))
+            return r
+        return self.invoke_body(f, args, kw)
+
+    def invoke_body(self, f, args, kw):
         node = f.node
         r = self.summary(f, args, kw)
         if r is not None:
